@@ -203,6 +203,13 @@ func c06Body(c *run.Ctx) {
 			s.Label(l)
 		}
 		if sig != "" {
+			st := h.Opened.State
+			if !strictlyBetween(st.CurrentDealerSeat, st.CurrentBBSeat, st.CurrentSBSeat, len(st.SeatMap)) && st.CurrentDealerSeat != st.CurrentSBSeat {
+				// the big blind jumped past the previous small-blind seat: the dead-button rule
+				// (C04) yields button seats whose small blind does not lie between dealer and
+				// big blind; no labelling can agree with them (recorded finding)
+				sig = "C06.labels-vs-buttons.sb-not-between-dealer-and-bb"
+			}
 			c.Failf(sig, "hand %d: %s", h.N, msg)
 		}
 		if labels["dead_dealer"] || labels["dead_sb"] || labels["k_ne_dealt"] {
